@@ -138,24 +138,27 @@ Fixpoint gff_lines (cap : nat) (k : nat) (st : bsrc) : list (nat * list N) * bsr
   end.
 
 (* ---- fasta scanners at their BufRead interface *)
-Fixpoint seq_pieces (cap : nat) (k : nat) (st : bsrc) : list (list N) * sres * bsrc :=
+Definition s_fuel (st : bsrc) : nat := 2 * b_fuel st 0 + 2.
+
+Fixpoint seq_pieces (cap : nat) (k : nat) (s : sstate source) : list (list N) * sres * sstate source :=
   match k with
-  | 0 => ([], SNoFuel, st)
+  | 0 => ([], SNoFuel, s)
   | Datatypes.S k' =>
-    match seq_fill_buf src_read cap (b_fuel st 0) st with
-    | (SOk, [], st') => ([], SOk, st')
-    | (SOk, p, st') =>
-        let '(ps, r, st'') := seq_pieces cap k' (br_consume (length p) st') in (p :: ps, r, st'')
-    | (e, _, st') => ([], e, st')
+    let '(ib, p, st) := s in
+    match seq_fill_buf src_read cap (s_fuel st) ib p st with
+    | (SOk, [], s') => ([], SOk, s')
+    | (SOk, piece, s') =>
+        let '(ps, r, s'') := seq_pieces cap k' (seq_consume (length piece) s') in (piece :: ps, r, s'')
+    | (e, _, s') => ([], e, s')
     end
   end.
 
-Definition run_read_sequence (cap : nat) (s : source) : sres * list N * bsrc :=
-  read_sequence src_read cap (b_fuel ([], s) 0) ([], s) [].
+Definition run_read_sequence (cap : nat) (s : source) : sres * list N * sstate source :=
+  read_sequence src_read cap (s_fuel ([], s)) (true, false, ([], s)) [].
 
 (* Indexer::index_record on "definition line + one sequence line": the first
    consume_sequence_line after the definition line has been read with read_line *)
 Definition fidx_first_line (cap : nat) (s : source) : sres * nat * nat * bsrc :=
   match read_line src_read cap (b_fuel ([], s) 0) ([], s) with
-  | (_, _, _, st1) => consume_sequence_line src_read cap (b_fuel st1 0) st1 false 0 0
+  | (_, _, _, st1) => consume_sequence_line src_read cap (s_fuel st1) st1 false false 0 0
   end.
